@@ -87,6 +87,36 @@ def Forest.size : Forest → Nat
   | .nil _ => 0
   | .cons _ c s => c.size + 1 + s.size
 
+/-! ### (e) interpreter frames of the recursive descent (finding C11-F2)
+
+  `XsdElement.raw_decode` (elements.py:603) calls `content_decoder.raw_decode` = `XsdGroup.raw_decode`
+  (groups.py:940), which calls `xsd_element.raw_decode` for every child: two interpreter frames per
+  element level (the same for raw_encode; measured by the harness for every entry point and
+  converter at two recursion limits on every run).  `tail` stands for the frames that the innermost
+  level needs below itself (attributes, simple values, converter, error construction). -/
+
+def framesPerLevel : Nat := 2
+
+/-- does the descent over a forest fit into `free` interpreter frames?  A forest of children is
+    decoded by ONE group frame whose cost is charged to the element that owns it, so: an element
+    needs `framesPerLevel` frames before its children are visited with what is left, its siblings
+    are visited with the same budget as itself; the innermost group needs `tail` more frames. -/
+def descendFits (tail : Nat) : Forest → Int → Bool
+  | .nil _, free => decide ((tail : Int) ≤ free)
+  | .cons _ c s, free =>
+      if free - (framesPerLevel : Int) < 0 then false
+      else descendFits tail c (free - framesPerLevel) && descendFits tail s free
+
+/-- outcome of validating / decoding a fully loaded document: the parse loop first (limits), then the
+    recursive descent.  `guarded`: the descent translates RecursionError into XMLResourceExceeded
+    (`Generated.C11.recursionGuard`, read from the AST of XsdElement.raw_decode). -/
+def processExc (guarded : Bool) (L E : Nat) (free : Int) (tail : Nat) (f : Forest) : Option String :=
+  match eagerParse L E f.events with
+  | .depthExceeded | .elementsExceeded => some "XMLResourceExceeded"
+  | .ok =>
+    if descendFits tail f free then none
+    else if guarded then some "XMLResourceExceeded" else some "RecursionError"
+
 /-! ### (b) limit setters -/
 
 inductive Limit where
